@@ -8,6 +8,9 @@ ALLOWED_AXIOMS = {
     "ClassicalDedekindReals.sig_forall_dec",
     "ClassicalDedekindReals.sig_not_dec",
     "FunctionalExtensionality.functional_extensionality_dep",
+    # brought in by the standard library's real logarithm (Rpower.ln), which the R instance of the scalar
+    # operations uses to give the QASM function ln its mathematical meaning
+    "Classical_Prop.classic",
 }
 FORBIDDEN = re.compile(
     r"\b(Admitted|admit|Axiom|Axioms|Parameter|Parameters|Conjecture|Conjectures|Abort All|Admit Obligations)\b"
